@@ -5,6 +5,8 @@ from hypothesis import strategies as st
 
 from vlib.core import Case, Facet, Refused, Violation
 
+# thorough-tier budgets of every facet are multiplied by this factor (sized for ~5-8 min on 16 cores)
+THOROUGH_SCALE = 4
 LEVEL = "exploration"
 RULE = ("spec = batch size 1-8 (even where flip needs it), image shape C in {1,3} x H,W in [1,9], 1 (binary scalar labels) to 10 "
         "classes with arbitrary collisions, mode = permutation of {x,class} plus optional index / extra item, every apply x lambda x "
